@@ -142,6 +142,7 @@ SRC_TIES = {
     'C11': 'should_record and clear_current_flag',
     'C12': '_WindSock.__init__/update_cache/vector_for_range/current_vector and Wind.vector',
     'C15': 'setup_seen_zero, check_zero_crossing, check_mach_crossing, should_record',
+    'C16': 'danger_space: half height and both scan tests (scan shapes matched structurally)',
     'C17': 'Ammo.get_velocity_for_temp and calc_powder_sens with its guard',
     'C19': 'Sight.get_adjustment with _adjust_sfp_reticle_steps per focal plane',
 }
